@@ -28,7 +28,7 @@ var textPool = []string{"A", " b ", "\n", "\n  ", "<p>", "</p> <b>", "ü€", "x
 
 var allConstructs = []string{"text", "var", "y", "vsim", "if", "ifequal", "ifnotequal", "for", "with", "set", "macro", "import",
 	"include", "lazyinclude", "cycle", "ifchanged", "filtertag", "spaceless", "autoescape", "firstof", "widthratio",
-	"templatetag", "lorem", "now", "comment", "verbatim", "ssi", "ssiplain", "failexpr"}
+	"templatetag", "lorem", "now", "comment", "verbatim", "ssi", "ssiplain", "failexpr", "poly", "lazyvar", "big", "recmacro"}
 
 // filters with the argument forms the generator writes for them
 var filterForms = map[string][]string{
@@ -212,6 +212,28 @@ func (p *progGen) node(b *strings.Builder, depth int) {
 		} else {
 			fmt.Fprintf(b, "{{ %s|vsim }}", p.strE())
 		}
+	case "poly":
+		// the same path resolves through a method, a map key or a struct field depending on the context
+		fmt.Fprintf(b, "{{ poly.%s }}", p.pick([]string{"Name", "Title", "Name|upper", "Kids.0", "Nick"}))
+	case "lazyvar":
+		// the file a lazy include names depends on the context
+		p.use("include")
+		if p.fileIdx >= 0 {
+			b.WriteString("{{ poly.Name }}")
+			return
+		}
+		b.WriteString("{% include lzv")
+		p.includeTail(b)
+	case "big":
+		fmt.Fprintf(b, "{{ bigs%s }}", p.pick([]string{"", "|length", "|upper", "|truncatechars:20"}))
+	case "recmacro":
+		if p.inMacro || p.fileIdx >= 0 {
+			b.WriteString("{{ rdepth }}")
+			return
+		}
+		p.use("macro")
+		m := p.id("rec")
+		fmt.Fprintf(b, "{%% macro %s(n) %%}{%% if n > 0 %%}{{ %s(n - 1) }}{%% else %%}<bottom{{ y() }}>{%% endif %%}{%% endmacro %%}{{ %s(rdepth) }}", m, m, m)
 	case "failexpr":
 		// fails in some contexts only (fn_maybe errors when the context says so)
 		b.WriteString("{{ fn_maybe() }}")
@@ -565,6 +587,31 @@ func (u *simUser) Cb() (string, error) {
 	return "", u.w.Callback(3)
 }
 
+// the same template path (poly.Name, poly.Title, ...) goes through a method, a map key
+// or a struct field depending on the context variant
+type polyMethods struct{ n string }
+
+func (p *polyMethods) Name() string  { return "method:" + p.n }
+func (p *polyMethods) Title() string { return "Title of " + p.n }
+
+type polyFields struct {
+	Name string
+	Nick string
+	Kids []int
+}
+
+// large outputs cross internal size thresholds (buffer growth, chunked writes)
+var bigStrings = func() [3]string {
+	mk := func(n int) string {
+		var b []byte
+		for i := 0; len(b) < n; i++ {
+			b = append(b, []byte(fmt.Sprintf("%06d<&>\n", i))...)
+		}
+		return string(b[:n])
+	}
+	return [3]string{mk(3 << 10), mk(40 << 10), mk(70 << 10)}
+}()
+
 type simStringer struct{ s string }
 
 func (s simStringer) String() string { return "Stringer(" + s.s + ")" }
@@ -600,6 +647,10 @@ func (w *World) BuildCtx(d CtxDesc) pongo2.Context {
 		"mp":        []map[string]any{{"k1": "v1", "k2": 2}, {"k1": "<v>"}, {"k1": "", "k3": 3.5, "k0": "z"}}[v],
 		"st":        st,
 		"strg":      simStringer{[]string{"x", "<y>", ""}[v]},
+		"poly":      []any{&polyMethods{"PM"}, map[string]any{"Name": "mapname<", "Title": "maptitle", "Kids": []string{"k1"}}, polyFields{Name: "fieldname", Nick: "nick&", Kids: []int{7, 8}}}[v],
+		"lzv":       []string{"inc0.tpl", "inc1.tpl", "inc0.tpl"}[v],
+		"bigs":      bigStrings[v],
+		"rdepth":    []int{3, 300, 600}[v],
 		"lz0":       "inc0.tpl",
 		"lz1":       "inc1.tpl",
 		"lzmissing": "nope.tpl",
